@@ -19,6 +19,7 @@ from typing import Any, Literal, Type
 from ._internal_utils import application_id_look_up
 from .base import DiameterMessage
 from .config import *
+from .exceptions import ProcessRequestException
 from .process import BaseMessageProcessor
 from .utils import is_client_mode
 from .utils import is_server_mode
@@ -411,7 +412,15 @@ class Open(State):
     def event_open_rcv_message(self) -> None:
         open_logger.debug("Event has been triggered.")
 
-        self.processor.check_message(self.msg)
+        try:
+            self.processor.check_message(self.msg)
+        except ProcessRequestException:
+            #: The request is not for this node: it is not handed to the 
+            #: application, and the state machine keeps running.
+            open_logger.exception("Request does not comply with local "\
+                                  "consumption rules. Dropping it.")
+            self.set_open_state()
+            return
 
         make_logging(self.msg)
 
